@@ -112,15 +112,15 @@ type mres struct {
 
 // modelCtx carries per-execution model state (state of per-execution policy executors).
 type modelCtx struct {
-	c        *checkCtx
-	v        *ExecView
-	sc       *Scenario
-	prefix   string // oracle id prefix
-	retrySt  map[int]*retryState // by stack position
-	hedgeAbove map[int]bool
-	strictFlags bool
+	c                   *checkCtx
+	v                   *ExecView
+	sc                  *Scenario
+	prefix              string              // oracle id prefix
+	retrySt             map[int]*retryState // by stack position
+	hedgeAbove          map[int]bool
+	strictFlags         bool
 	rootFallbackApplied bool
-	allow []string // oracle-id prefixes this property reports (nil = all)
+	allow               []string // oracle-id prefixes this property reports (nil = all)
 }
 
 type retryState struct {
